@@ -55,6 +55,11 @@ impl crate::io::fsm::Outboard for EmptyOutboard {
 
 impl crate::io::sync::OutboardMut for EmptyOutboard {
     fn save(&mut self, node: TreeNode, _pair: &(blake3::Hash, blake3::Hash)) -> io::Result<()> {
+        // hash pairs below the block size have no slot in any outboard: ignore them,
+        // as the io backed outboards do, so that sub chunk group queries can be decoded
+        if node.level() < self.tree.block_size().to_u32() {
+            return Ok(());
+        }
         if self.tree.is_relevant_for_outboard(node) {
             Ok(())
         } else {
@@ -77,6 +82,11 @@ impl crate::io::fsm::OutboardMut for EmptyOutboard {
         node: TreeNode,
         _pair: &(blake3::Hash, blake3::Hash),
     ) -> io::Result<()> {
+        // hash pairs below the block size have no slot in any outboard: ignore them,
+        // as the io backed outboards do, so that sub chunk group queries can be decoded
+        if node.level() < self.tree.block_size().to_u32() {
+            return Ok(());
+        }
         if self.tree.is_relevant_for_outboard(node) {
             Ok(())
         } else {
@@ -257,6 +267,11 @@ impl<T: AsRef<[u8]>> crate::io::fsm::Outboard for PostOrderMemOutboard<T> {
 
 impl<T: AsMut<[u8]>> crate::io::sync::OutboardMut for PostOrderMemOutboard<T> {
     fn save(&mut self, node: TreeNode, pair: &(blake3::Hash, blake3::Hash)) -> io::Result<()> {
+        // hash pairs below the block size have no slot in any outboard: ignore them,
+        // as the io backed outboards do, so that sub chunk group queries can be decoded
+        if node.level() < self.tree.block_size().to_u32() {
+            return Ok(());
+        }
         match self.tree.post_order_offset(node) {
             Some(offset) => {
                 let offset = usize::try_from(offset.value() * 64).unwrap();
@@ -284,6 +299,11 @@ impl<T: AsMut<[u8]>> crate::io::fsm::OutboardMut for PostOrderMemOutboard<T> {
         node: TreeNode,
         pair: &(blake3::Hash, blake3::Hash),
     ) -> io::Result<()> {
+        // hash pairs below the block size have no slot in any outboard: ignore them,
+        // as the io backed outboards do, so that sub chunk group queries can be decoded
+        if node.level() < self.tree.block_size().to_u32() {
+            return Ok(());
+        }
         match self.tree.post_order_offset(node) {
             Some(offset) => {
                 let offset = usize::try_from(offset.value() * 64).unwrap();
@@ -411,6 +431,11 @@ impl<T: AsRef<[u8]>> crate::io::sync::Outboard for PreOrderMemOutboard<T> {
 
 impl<T: AsMut<[u8]>> crate::io::sync::OutboardMut for PreOrderMemOutboard<T> {
     fn save(&mut self, node: TreeNode, pair: &(blake3::Hash, blake3::Hash)) -> io::Result<()> {
+        // hash pairs below the block size have no slot in any outboard: ignore them,
+        // as the io backed outboards do, so that sub chunk group queries can be decoded
+        if node.level() < self.tree.block_size().to_u32() {
+            return Ok(());
+        }
         match self.tree.pre_order_offset(node) {
             Some(offset) => {
                 let offset_u64 = offset * 64;
@@ -452,6 +477,11 @@ impl<T: AsMut<[u8]>> crate::io::fsm::OutboardMut for PreOrderMemOutboard<T> {
         node: TreeNode,
         pair: &(blake3::Hash, blake3::Hash),
     ) -> io::Result<()> {
+        // hash pairs below the block size have no slot in any outboard: ignore them,
+        // as the io backed outboards do, so that sub chunk group queries can be decoded
+        if node.level() < self.tree.block_size().to_u32() {
+            return Ok(());
+        }
         match self.tree.pre_order_offset(node) {
             Some(offset) => {
                 let offset_u64 = offset * 64;
